@@ -64,7 +64,7 @@ RULE = ("as C14 with one or two solve_order directives per class (single fields,
 
 if __name__ == "__main__":
     common.run_main(lambda: solvecheck.standard_main(
-        "C20", ["C20"], THEOREMS, PROFILE, 300, 12000,
+        "C20", ["C20", "C20Order"], THEOREMS, PROFILE, 300, 12000,
         ["as C01/C14", "the distribution clause is carried by first_group_hits_target (a feasible drawn value of the first group is "
          "returned whatever the number of extensions) plus the assumed uniformity of randint; no frequency test is run"],
         RULE, bounds=True))
